@@ -2,6 +2,7 @@ SPECIFICATION Spec
 CONSTANTS
   NV = 3
   StabV = {}
+  HasHf = FALSE
   NP = 3
   UseQueue = FALSE
   SkipQueue = FALSE
